@@ -92,6 +92,7 @@ type Recorder struct {
 	verifDir   string
 	finished   bool
 	replayed   []string
+	curFile    *os.File
 
 	extraBulkNontrivial int64
 }
@@ -284,9 +285,47 @@ func (r *Recorder) KnownOpen(key string) bool {
 
 // Kind is a typed case kind.
 type Kind[C any] struct {
-	r     *Recorder
-	st    *kindState
-	judge func(C) []Violation
+	r       *Recorder
+	st      *kindState
+	judge   func(C) []Violation
+	declare bool
+}
+
+// DeclareEach makes every evaluation of this kind write its case to the run's
+// current-case file before the judge runs (and clear it afterwards), so that a
+// death of the whole process that recover() cannot stop (fatal stack overflow,
+// out of memory, a panic on another goroutine) is attributed to the case by the
+// driver and reported as a violation with that file as replay.
+func (k *Kind[C]) DeclareEach() *Kind[C] {
+	k.declare = true
+	return k
+}
+
+func (r *Recorder) declareCurrent(kind string, c interface{}) {
+	raw, err := json.Marshal(c)
+	if err != nil {
+		return
+	}
+	b, _ := json.Marshal(ReplayFile{Property: r.ID, Kind: kind, Case: raw, Note: "the worker process died while judging this case"})
+	r.mu.Lock()
+	defer r.mu.Unlock()
+	if r.curFile == nil {
+		f, err := os.OpenFile(filepath.Join(r.outDir, fmt.Sprintf("current-%d.json", r.Shard)), os.O_RDWR|os.O_CREATE|os.O_TRUNC, 0o644)
+		if err != nil {
+			return
+		}
+		r.curFile = f
+	}
+	_ = r.curFile.Truncate(0)
+	_, _ = r.curFile.WriteAt(b, 0)
+}
+
+func (r *Recorder) clearCurrent() {
+	r.mu.Lock()
+	defer r.mu.Unlock()
+	if r.curFile != nil {
+		_ = r.curFile.Truncate(0)
+	}
 }
 
 // NewKind registers a kind of case with its judge.
@@ -337,6 +376,10 @@ func Guard(clause string, f func()) (v *Violation) {
 
 // Eval judges c, records it and returns the violations found.
 func (k *Kind[C]) Eval(c C, nontrivial bool, classes ...string) []Violation {
+	if k.declare {
+		k.r.declareCurrent(k.st.name, c)
+		defer k.r.clearCurrent()
+	}
 	vs := safeJudge(k.judge, c)
 	k.record(c, nontrivial, classes, vs)
 	return vs
@@ -345,6 +388,10 @@ func (k *Kind[C]) Eval(c C, nontrivial bool, classes ...string) []Violation {
 // EvalLazy is Eval for judges whose classification is only known after judging
 // (the judge leaves it in package state; classify reads it). Avoids judging twice.
 func (k *Kind[C]) EvalLazy(c C, classify func() (bool, []string)) []Violation {
+	if k.declare {
+		k.r.declareCurrent(k.st.name, c)
+		defer k.r.clearCurrent()
+	}
 	vs := safeJudge(k.judge, c)
 	nt, cl := classify()
 	k.record(c, nt, cl, vs)
@@ -532,7 +579,9 @@ func (r *Recorder) ReplayFileJudge(path string) ([]Violation, error) {
 	if !ok {
 		return nil, fmt.Errorf("%s: unknown kind %q for %s", path, rf.Kind, r.ID)
 	}
+	r.declareCurrent(rf.Kind, rf.Case) // a replayed case that kills the process is attributed by the driver
 	vs, err := st.replayJudge(rf.Case)
+	r.clearCurrent()
 	if err != nil {
 		return nil, fmt.Errorf("%s: %v", path, err)
 	}
